@@ -271,13 +271,37 @@ def r154(ctx):
     rid = "R-15.4"
     tree = ctx.tree
     ci = tree.func(PATH, "Path.check_interfaces")
-    chains = [c for c in ast.walk(ci) if isinstance(c, ast.Compare) and len(c.ops) == 2]
-    if len(chains) != 1:
-        raise AnalysisError(f"R-15.4: expected one chained comparison `min < l <= max` in check_interfaces, found {len(chains)}")
-    ch = chains[0]
-    lo_txt, hi_txt = ast.unparse(ch.left), ast.unparse(ch.comparators[1])
-    if not ("min" in lo_txt and "max" in hi_txt):
-        raise AnalysisError("R-15.4: the chained comparison of check_interfaces is not <minimum> . interface . <maximum>")
+    # the crossing test  <minimum> < interface <= <maximum>  (a chained comparison is split into a
+    # conjunction by the loader; either spelling arrives here as two binary comparisons)
+    lo_c = hi_c = None
+    cifl = flow_of(ci)
+    for b in [b for b in ast.walk(ci) if isinstance(b, ast.BoolOp) and isinstance(b.op, ast.And) and len(b.values) == 2 and all(isinstance(v, ast.Compare) and len(v.ops) == 1 for v in b.values)]:
+        def kind(x):
+            try:
+                e_, _ = deref(cifl, x, cifl.cfg.node_of(b))
+            except Exception:
+                e_ = x
+            t_ = ast.unparse(e_) + " " + ast.unparse(x)
+            return "min" if "min" in t_ else ("max" if "max" in t_ else None)
+        for v in b.values:
+            o = oriented(v, lambda x: kind(x) is None)  # interface on the left:  interface OP extreme
+            if o is None:
+                continue
+            k = kind(o[2])
+            if k == "min":
+                lo_c = (v, o)
+            elif k == "max":
+                hi_c = (v, o)
+    if lo_c is None or hi_c is None:
+        raise AnalysisError("R-15.4: the crossing test `minimum < interface <= maximum` was not found in check_interfaces")
+
+    class _Ch:  # the two halves in the shape the checks below expect
+        pass
+    ch = _Ch()
+    # interface > min  <=>  min < interface ; interface <= max
+    ch.node = lo_c[0]
+    FL = {ast.Lt: ast.Gt, ast.Gt: ast.Lt, ast.LtE: ast.GtE, ast.GtE: ast.LtE}
+    ch.ops = [FL[type(lo_c[1][1])](), hi_c[1][1]]  # [min OP0 interface, interface OP1 max]
 
     def incl(fname, side):
         f = tree.func(PATH, "Path." + fname)
@@ -300,18 +324,21 @@ def r154(ctx):
     sc, start_incl = incl("get_start_point", "left")
     up_incl = isinstance(ch.ops[1], ast.LtE)
     lo_strict = isinstance(ch.ops[0], ast.Lt)
+    sym = {ast.Lt: "<", ast.LtE: "<=", ast.Gt: ">", ast.GtE: ">="}
+    shown = f"minimum {sym.get(type(ch.ops[0]), '?')} interface {sym.get(type(ch.ops[1]), '?')} maximum"
+    node = ch.node
     if not isinstance(ch.ops[1], (ast.Lt, ast.LtE)) or not isinstance(ch.ops[0], (ast.Lt, ast.LtE)):
-        ctx.bad(rid, ch, "the crossing test of check_interfaces is not of the form minimum < interface <= maximum", construct="crossing test " + short(ch, 60))
+        ctx.bad(rid, node, f"the crossing test of check_interfaces is `{shown}`, not of the form minimum < interface <= maximum", construct="crossing test " + shown)
         return
     if up_incl == end_incl:
-        ctx.ok(rid, ch, f"crossing test upper bound `{type(ch.ops[1]).__name__}` agrees with the end-point rule `{short(ec, 40)}`: a path that ends on an interface ('R') has crossed it")
+        ctx.ok(rid, node, f"crossing test upper bound `{sym[type(ch.ops[1])]}` agrees with the end-point rule `{short(ec, 40)}`: a path that ends on an interface ('R') has crossed it")
     else:
-        ctx.bad(rid, ch, f"check_interfaces counts an interface as crossed with `{short(ch, 50)}` while get_end_point classifies a frame on the interface with `{short(ec, 40)}`: a path whose maximum lies exactly on an interface ends 'R' there but is reported as not crossing it (cross and 'M' disagree with the extreme values)",
+        ctx.bad(rid, node, f"check_interfaces counts an interface as crossed with `{shown}` while get_end_point classifies a frame on the interface with `{short(ec, 40)}`: a path whose maximum lies exactly on an interface ends 'R' there but is reported as not crossing it (cross and 'M' disagree with the extreme values)",
                 construct="crossing upper bound vs end-point rule")
     if lo_strict == start_incl:
-        ctx.ok(rid, ch, f"crossing test lower bound `{type(ch.ops[0]).__name__}` agrees with the start-point rule `{short(sc, 40)}`")
+        ctx.ok(rid, node, f"crossing test lower bound `{sym[type(ch.ops[0])]}` agrees with the start-point rule `{short(sc, 40)}`")
     else:
-        ctx.bad(rid, ch, f"check_interfaces' lower bound `{short(ch, 50)}` disagrees with get_start_point's `{short(sc, 40)}` on a frame exactly on the interface", construct="crossing lower bound vs start-point rule")
+        ctx.bad(rid, node, f"check_interfaces' lower bound in `{shown}` disagrees with get_start_point's `{short(sc, 40)}` on a frame exactly on the interface", construct="crossing lower bound vs start-point rule")
 
 
 def r152(ctx):
